@@ -164,7 +164,7 @@ CHECKS = {
         'level, ignore declarations in base and/or derived, modules used in random order) with its FLATTENED grammar on ~250 '
         'inputs, every entry point of the parent before/after, and inherited entry points; chains with templates, rule arguments, super '
         'calls with arguments, qualified grammar names, an ignore pattern of its own at every level, a class.',
-   note=TB + 'partial: importlib/sys.modules plumbing, re-parsing of the parent\'s description and ignore handling are covered by the differential runs only. Known finding (narrowed): entry points of inherited CLASSES run with the parent's context (for inherited rules repaired in /repo). Formerly: entry points of inherited rules/classes run with the parent\'s context.',
+   note=TB + 'partial: importlib/sys.modules plumbing, re-parsing of the parent\'s description and ignore handling are covered by the differential runs only. Known finding (narrowed): entry points of inherited CLASSES run with the context of the parent (for inherited rules repaired in /repo). Formerly: entry points of inherited rules/classes run with the parent\'s context.',
    technique='Coq proof on a context-resolution model + differential comparison of grammar chains with their flattened grammar',
    ref='DESIGN.md §6 C13'),
  'C14': dict(
